@@ -20,10 +20,14 @@ NAMES = ["a", "b", "data", "child", "info", "_private", "count", "k_9", "Zeta"]
 # names that exist on the classes but are not instance data (method / property / class attribute)
 CLASS_LEVEL = ["method", "prop", "class_level", "save", "print_tree"]
 ABSENT = ["nope", "missing_attr", "a_b"]
-TYPE_TOKENS = ["int", "float", "str", "bool", "list", "tuple", "dict", "set", "ndarray", "tensor", "NodeB", "Path", "Module", "object", "complex", "NoneType"]
+TYPE_TOKENS = ["int", "float", "str", "bool", "list", "tuple", "dict", "set", "ndarray", "tensor", "NodeB", "Path", "Module", "object", "complex", "NoneType",
+               # abstract base classes: isinstance() is true for virtual subclasses too
+               "Integral", "Real", "Number", "Mapping", "Sequence", "PathLike", "Sized"]
 
 
 def _types(tokens):
+    import collections.abc
+    import numbers
     import pathlib
 
     import numpy as np
@@ -35,6 +39,8 @@ def _types(tokens):
         "int": int, "float": float, "str": str, "bool": bool, "list": list, "tuple": tuple, "dict": dict, "set": set,
         "ndarray": np.ndarray, "tensor": torch.Tensor, "NodeB": ser_models.NodeB, "Path": pathlib.PurePath,
         "Module": torch.nn.Module, "object": object, "complex": complex, "NoneType": type(None),
+        "Integral": numbers.Integral, "Real": numbers.Real, "Number": numbers.Number, "Mapping": collections.abc.Mapping,
+        "Sequence": collections.abc.Sequence, "PathLike": os.PathLike, "Sized": collections.abc.Sized,
     }  # fmt: skip
     return [m[t] for t in tokens]
 
@@ -51,8 +57,10 @@ def attr_objects(draw, depth):
         else:
             v = draw(gg.values(draw(st.integers(0, 1)), complex_ok=True, objs=False))
             # containers may use the very same names as dict keys: skipping must not reach into them
-            if v["t"] == "dict" and v["items"] and draw(st.booleans()):
-                v["items"][0][0] = draw(st.sampled_from(NAMES))
+            if v["t"] == "dict" and v["items"]:
+                for it in v["items"]:
+                    if draw(st.booleans()):
+                        it[0] = draw(st.sampled_from(NAMES))
                 seen, items = set(), []
                 for k, s in v["items"]:
                     if k not in seen:
@@ -77,12 +85,20 @@ def skip_names(draw, spec, allow_class_level=True):
     byd = _all_names(spec)
     present = sorted(byd)
     multi = [n for n in present if len(byd[n]) >= 2]
-    pool = present + multi * 3 + ABSENT + (CLASS_LEVEL if allow_class_level else [])
+    # names that are ALSO dict keys somewhere (skipping must not reach into containers); absent attribute
+    # names that are dict keys count too
+    dkeys = sorted({k for k, _v in _dict_keys(spec) if k in NAMES})
+    pool = present + multi * 3 + dkeys * 4 + ABSENT + (CLASS_LEVEL if allow_class_level else [])
     return draw(st.lists(st.sampled_from(pool), min_size=1, max_size=4, unique=True))
 
 
 KIND_TO_TOKEN = {"int": "int", "bool": "bool", "float": "float", "str": "str", "list": "list", "tuple": "tuple", "dict": "dict", "set": "set",
                  "nd": "ndarray", "tensor": "tensor", "path": "Path", "module": "Module", "complex": "complex", "none": "NoneType"}  # fmt: skip
+
+
+ABC_FOR_KIND = {"int": ["Integral", "Real", "Number"], "bool": ["Integral", "Number"], "float": ["Real", "Number"], "complex": ["Number"],
+                "dict": ["Mapping", "Sized"], "list": ["Sequence", "Sized"], "tuple": ["Sequence", "Sized"], "str": ["Sequence", "Sized"],
+                "path": ["PathLike"], "npscalar": ["Number"], "set": ["Sized"]}  # fmt: skip
 
 
 def _present_tokens(spec, depth=0, out=None):
@@ -95,6 +111,8 @@ def _present_tokens(spec, depth=0, out=None):
             _present_tokens(s, depth + 1, out)
         elif s["t"] in KIND_TO_TOKEN:
             out.setdefault(KIND_TO_TOKEN[s["t"]], set()).add(depth)
+        for abc in ABC_FOR_KIND.get(s["t"], []):
+            out.setdefault(abc, set()).add(depth)
     return out
 
 
